@@ -477,6 +477,20 @@ def check_property(ctx, pid, tier, seed, replay=None):
                                               'theorems': au['theorems']})
         violations.append((rp, True, 'proof audit: ' + '; '.join(au['problems'])[:300]))
 
+    if tier == 'thorough' and not violations and os.environ.get('VERIF_NO_COQCHK') != '1':
+        # independent re-check of the compiled property library and everything it depends on
+        mod = 'Krp.' + spec['props_file'][:-2].replace('/', '.')
+        t1 = time.time()
+        rc, out = run(['coqchk', '-o', '-silent', '-Q', ctx.coq, 'Krp', mod], cwd=ctx.coq, timeout=7200)
+        cov['coqchk_s'] = round(time.time() - t1, 1)
+        summary = out[out.find('CONTEXT SUMMARY'):] if 'CONTEXT SUMMARY' in out else out[-1500:]
+        cov['coqchk'] = ' '.join(summary.split())[:600]
+        okc = (rc == 0 and '* Axioms: <none>' in summary and 'type-in-type: <none>' in summary
+               and 'unsafe (co)fixpoints: <none>' in summary and 'positivity is assumed: <none>' in summary)
+        if not okc:
+            rp = write_replay(ctx, pid, 'coqchk', {'kind': 'proof-obligation', 'coqchk_output_tail': out[-3000:]})
+            violations.append((rp, True, 'coqchk does not accept %s with an empty axiom list' % mod))
+
     fp = repo_fingerprint()
     sizes = P.SIZES[tier]
 
@@ -646,6 +660,7 @@ def finish(ctx, pid, tier, seed, t0, spec, au, cov, violations, known_hits):
             'samples': cov['samples'] or [{'note': 'no correspondence stream ran'}],
             'streams': cov['streams'],
             'builds_s': {k: v for k, v in cov.items() if k.startswith('build_')},
+            'coqchk': cov.get('coqchk', 'not run in this tier (thorough only)'),
         },
         'assumptions': spec.get('assumes', []),
         'wall_s': round(wall, 1),
